@@ -31,13 +31,14 @@ def check(run):
         plan.append(('real run: process T1 N=4, stream length 6', EQ + ({'S': 6, 'N': 4, 'pending': 0},), 3000, False))
         plan.append(('real run: streams not ending in LF, N=3, S=4', EQ + ({'S': 4, 'N': 3, 'pending': 2, 'force_nl': False},), 2400, True))
     two = (b'A:X:Q?\n' * 2).hex()
-    plan.append(('real run: two string queries "A:X:Q?" whose answers (13 bytes each) fit the response buffer one at a time but not together, N=16, every chunking of the 14-byte stream',
+    plan.append(('real run: two string queries "A:X:Q?" whose answers (13 bytes each) fit the response buffer one at a time but not together, N=16, whole / byte-wise / every one and two cut positions (every chunking for streams up to 8 bytes) of the 14-byte stream',
                  EQ + ({'S': 14, 'N': 16, 'concrete': two, 'long_answers': True, 'pending': 0, 'max_empty': 0},), 900, True))
     if thorough:
         plan.append(('real run: "X;A:X:Q?" then "A:X:Q?", long answers, N=24', EQ + ({'S': 16, 'N': 24, 'concrete': (b'X;A:X:Q?\nA:X:Q?\n').hex(), 'long_answers': True, 'pending': 0, 'max_empty': 0},), 2400, False))
     LIB = ('mirsym.checks.process_level', 'LibraryProcess')
-    plan.append(('real run: streams of 1..2 messages from a library of 13 realistic messages (queries, failing queries, execution faults after the path moved, relative follow-ups, strings), N=16, every chunking: '
-                 'handlers and responses must be those of the messages taken one at a time', LIB + ({'k': 2, 'N': 16, 'max_len': 13 if not thorough else 16},), 1500, True))
+    plan.append(('real run: streams of 1..2 messages from a library of 13 realistic messages (queries, failing queries, execution faults after the path moved, relative follow-ups, strings), N=16, whole / byte-wise / every one and two cut positions (every chunking for streams up to 8 bytes): '
+                 'handlers and responses must be those of the messages taken one at a time', LIB + ({'k': 2, 'N': 16, 'max_len': 16},), 1500, True))
+    plan.append(('real run: library streams of up to 8 bytes, N=16, every chunking', LIB + ({'k': 2, 'N': 16, 'max_len': 8, 'all_chunkings': True},), 900, True))
     done_b = []
     for name, spec, secs, req in plan:
         st = run.explore(name, spec, secs, required=req)
